@@ -867,6 +867,7 @@ func (a *idxAnalyzer) runAll(fds []*ast.FuncDecl) {
 		prevBad := len(a.invBad)
 		prevRet := a.retSig() + fmt.Sprint(a.delta)
 		a.analyseFuncTables(tabs)
+		a.paramFuncFacts(fds)
 		for _, fd := range fds {
 			a.analyseFunc(fd)
 		}
@@ -1198,5 +1199,149 @@ func (a *idxAnalyzer) analyseFuncTables(tabs map[types.Object]*funcTable) {
 		} else {
 			delete(a.retLE, field)
 		}
+	}
+}
+
+// ---- function-valued parameters ----
+// A function that calls one of its own parameters (consume func([]byte) (T, int)) may rely on what
+// every function handed in for that parameter guarantees: the facts shared by all actual arguments
+// at all call sites in the package (library contracts included) become the return facts of the parameter.
+
+func (a *idxAnalyzer) libFuncFacts(f *types.Func) ([]retFact, bool) {
+	if f.Pkg() == nil {
+		return nil, false
+	}
+	sig, _ := f.Type().(*types.Signature)
+	if sig == nil {
+		return nil, false
+	}
+	if f.Pkg().Path() == "google.golang.org/protobuf/encoding/protowire" && strings.HasPrefix(f.Name(), "Consume") && sig.Results().Len() >= 2 {
+		return []retFact{{res: sig.Results().Len() - 1, param: 0, lenOf: true, w: 0, whenOK: -1}}, true
+	}
+	return nil, false
+}
+
+func (a *idxAnalyzer) paramFuncFacts(fds []*ast.FuncDecl) {
+	type key struct {
+		fn  types.Object
+		idx int
+	}
+	params := map[key]types.Object{}
+	for _, fd := range fds {
+		fo := a.info.Defs[fd.Name]
+		k := 0
+		for _, f := range fd.Type.Params.List {
+			for _, nm := range f.Names {
+				if _, isSig := a.info.TypeOf(f.Type).Underlying().(*types.Signature); isSig {
+					params[key{fo, k}] = a.info.Defs[nm]
+				}
+				k++
+			}
+			if len(f.Names) == 0 {
+				k++
+			}
+		}
+	}
+	if len(params) == 0 {
+		return
+	}
+	isParam := map[types.Object]bool{}
+	for _, po := range params {
+		isParam[po] = true
+	}
+	known := map[types.Object][]retFact{} // parameters whose facts are settled
+	var shared map[types.Object][]retFact
+	var seen, dead map[types.Object]bool
+	for iter := 0; iter < 4; iter++ {
+		shared = map[types.Object][]retFact{}
+		seen = map[types.Object]bool{}
+		dead = map[types.Object]bool{}
+		for _, f := range a.pkg.Syntax {
+			ast.Inspect(f, func(n ast.Node) bool {
+				c, ok := n.(*ast.CallExpr)
+				if !ok {
+					return true
+				}
+				callee, _ := calleeOf(a.info, c).(*types.Func)
+				if callee == nil {
+					return true
+				}
+				callee = callee.Origin()
+				for i, arg := range c.Args {
+					po := params[key{callee, i}]
+					if po == nil {
+						continue
+					}
+					var facts []retFact
+					okArg := false
+					var fobj *types.Func
+					switch x := ast.Unparen(arg).(type) {
+					case *ast.Ident:
+						fobj, _ = a.info.Uses[x].(*types.Func)
+						// the caller's own function-valued parameter, handed on
+						if v, isVar := a.info.Uses[x].(*types.Var); isVar && isParam[v] {
+							if kf, ok := known[v]; ok {
+								facts, okArg = kf, true
+							}
+						}
+					case *ast.SelectorExpr:
+						fobj, _ = a.info.Uses[x.Sel].(*types.Func)
+					}
+					if fobj != nil {
+						if lf, ok := a.libFuncFacts(fobj); ok {
+							facts, okArg = lf, true
+						} else if rf, ok := a.retLE[fobj.Origin()]; ok {
+							facts, okArg = rf, true
+						}
+					}
+					if !okArg {
+						dead[po] = true
+						continue
+					}
+					var norm []retFact
+					for _, f := range facts {
+						if f.param >= 0 {
+							f.seqKey = ""
+						}
+						norm = append(norm, f)
+					}
+					if !seen[po] {
+						seen[po] = true
+						shared[po] = norm
+						continue
+					}
+					var keep []retFact
+					for _, f := range shared[po] {
+						for _, g := range norm {
+							if f == g {
+								keep = append(keep, f)
+								break
+							}
+						}
+					}
+					shared[po] = keep
+				}
+				return true
+			})
+		}
+		changed := false
+		for _, po := range params {
+			if !dead[po] && seen[po] && len(shared[po]) > 0 {
+				if _, ok := known[po]; !ok {
+					known[po] = shared[po]
+					changed = true
+				}
+			}
+		}
+		if !changed {
+			break
+		}
+	}
+	for _, po := range params {
+		if dead[po] || !seen[po] || len(shared[po]) == 0 {
+			delete(a.retLE, po)
+			continue
+		}
+		a.retLE[po] = shared[po]
 	}
 }
